@@ -269,10 +269,6 @@ func c10GenRows(r *gen.Rand, n, idBase int) []c10Row {
 
 func c10PickKeys(r *gen.Rand) []sortKey {
 	cols := []string{"k1", "k2", "s", "os", "f", "b", "o3", "g.x"}
-	if r.P(10) {
-		// a repeated column as the only key, ascending: rows compare element by element, a prefix comes first
-		return []sortKey{{col: "p"}}
-	}
 	n := 1 + r.Intn(2)
 	var keys []sortKey
 	used := map[string]bool{}
@@ -396,6 +392,10 @@ func runC10(c *Ctx) {
 	te := typeByName("c10row")
 	schema := te.ops.Schema()
 	keys := c10PickKeys(r)
+	if r.P(10) {
+		// a repeated column as the only key, ascending: rows compare element by element, a prefix comes first
+		keys = []sortKey{{col: "p"}}
+	}
 	c10RepeatedKey = keys[0].col == "p"
 	if c10RepeatedKey {
 		c.Obs("repeated_sort_key", 1)
